@@ -49,8 +49,14 @@ def u_frames(ctx):
     for rel, q in FRAMED:
         node = frames.function_node(rel, q)
         refs = frames.entropy_refs(node)
-        ctx.record("frame:%s:%s:draws-only-from-designated-generator" % (rel.split("/")[-1], q), not refs, kind="frame",
-                   detail="entropy references outside the frame: %s" % refs)
+        base = "frame:%s:%s:draws-only-from-designated-generator" % (rel.split("/")[-1], q)
+        if not refs:
+            ctx.record(base, True, kind="frame")
+        # one obligation per distinct source referenced: a recorded finding names the sources it is about, so a NEW source in a
+        # function that already has a recorded one is a new failed obligation, not part of the old finding
+        for d in sorted({d for _, d in refs}):
+            ctx.record("%s:no-reference-to:%s" % (base, d), False, kind="frame",
+                       detail="entropy references outside the frame: %s" % [r for r in refs if r[1] == d])
     # no helper with a generator of its own (third-party helpers seeded from the operating system): neither prng.seed nor an explicit
     # generator would reach it.  Every function and method of the operator module and every framed function.
     tree = ast.parse(loopcut.read_source(ADDON))
